@@ -186,14 +186,14 @@ Theorem C18_int_limit : forall z, Z.abs z < 10 ^ 4300 ->
   str_int_lim 4300 z = Some (show_int z) /\
   py_int_lim 4300 (show_int z) = Some z /\
   try_make_number_lim 4300 (CT (l2s (show_int z))) = OInt z.
-Proof. intros z H. apply int_limit_ok. unfold int_in_limit. rewrite lim_bound_eq. apply Z.ltb_lt, H. Qed.
+Proof. intros z H. apply int_limit_ok. unfold int_in_limit, int_max_str_digits. apply Z.ltb_lt, H. Qed.
 Print Assumptions C18_int_limit.
 
 (* beyond it str() raises ValueError (save_json, write_tsv, _write_tsv_simple, write_python all fail
    before anything can be read back) and int() rejects the literal *)
 Theorem C18_int_limit_exceeded : forall z, 10 ^ 4300 <= Z.abs z ->
   str_int_lim 4300 z = None /\ py_int_lim 4300 (show_int z) = None.
-Proof. intros z H. apply int_limit_exceeded. unfold int_in_limit. rewrite lim_bound_eq. apply Z.ltb_ge, H. Qed.
+Proof. intros z H. apply int_limit_exceeded. unfold int_in_limit, int_max_str_digits. apply Z.ltb_ge, H. Qed.
 Print Assumptions C18_int_limit_exceeded.
 
 Theorem C18_int_digits : forall n k, 0 <= n -> 1 <= k -> (zlen (show_nat n) <=? k) = (n <? 10 ^ k).
